@@ -861,12 +861,22 @@ int reb_collision_resolve_merge(struct reb_simulation* const r, struct reb_colli
     }
     
     // Merge by conserving mass, volume and momentum
-    pi->vx = (pi->vx*pi->m + pj->vx*pj->m)*invmass;
-    pi->vy = (pi->vy*pi->m + pj->vy*pj->m)*invmass;
-    pi->vz = (pi->vz*pi->m + pj->vz*pj->m)*invmass;
-    pi->x  = (pi->x*pi->m + pj->x*pj->m)*invmass;
-    pi->y  = (pi->y*pi->m + pj->y*pj->m)*invmass;
-    pi->z  = (pi->z*pi->m + pj->z*pj->m)*invmass;
+    if (pi->m + pj->m == 0.){
+        // Two massless particles: 0/0. Merge them at the midpoint.
+        pi->vx = 0.5*(pi->vx + pj->vx);
+        pi->vy = 0.5*(pi->vy + pj->vy);
+        pi->vz = 0.5*(pi->vz + pj->vz);
+        pi->x  = 0.5*(pi->x + pj->x);
+        pi->y  = 0.5*(pi->y + pj->y);
+        pi->z  = 0.5*(pi->z + pj->z);
+    }else{
+        pi->vx = (pi->vx*pi->m + pj->vx*pj->m)*invmass;
+        pi->vy = (pi->vy*pi->m + pj->vy*pj->m)*invmass;
+        pi->vz = (pi->vz*pi->m + pj->vz*pj->m)*invmass;
+        pi->x  = (pi->x*pi->m + pj->x*pj->m)*invmass;
+        pi->y  = (pi->y*pi->m + pj->y*pj->m)*invmass;
+        pi->z  = (pi->z*pi->m + pj->z*pj->m)*invmass;
+    }
     pi->m  = pi->m + pj->m;
     pi->r  = cbrt(pi->r*pi->r*pi->r + pj->r*pj->r*pj->r);
     pi->last_collision = r->t;
